@@ -748,39 +748,29 @@ func prPrint(fset *token.FileSet, n ast.Node) string {
 
 // the texts the Lean statements were written against (whitespace-normalised, comments dropped)
 var prRuntimeWant = map[string]string{
-	`endSymbol`:     `const endSymbol rune = 1114112`,
-	`tokens32.Trim`: `func (t *tokens32) Trim(length uint32) { t.tree = t.tree[:length] }`,
-	`tokens32.Add`: `func (t *tokens32) Add(rule pegRule, begin, end, index uint32) { tree, i := t.tree, int(index) ` +
-		`if i >= len(tree) { t.tree = append(tree, token32{pegRule: rule, begin: begin, end: end}) return } ` +
-		`tree[i] = token32{pegRule: rule, begin: begin, end: end} }`,
-	`tokens32.Tokens`:         `func (t *tokens32) Tokens() []token32 { return t.tree }`,
-	`pegJSONPathParser.Parse`: `func (p *pegJSONPathParser) Parse(rule ...int) error { return p.parse(rule...) }`,
-	`pegJSONPathParser.Reset`: `func (p *pegJSONPathParser) Reset() { p.reset() }`,
-	`memo`:                    `type memo struct { Matched bool Partial []token32 }`,
-	`memoKey`:                 `type memoKey struct { Rule uint32 Position uint32 }`,
-	`token32`:                 `type token32 struct { pegRule begin, end uint32 }`,
+	`endSymbol`: `const endSymbol rune = 1114112`,
+	`memo`:      `type memo struct { Matched bool Partial []token32 }`,
+	`memoKey`:   `type memoKey struct { Rule uint32 Position uint32 }`,
+	`token32`:   `type token32 struct { pegRule begin, end uint32 }`,
+	// Since L30 only the SKELETON of Init is pinned: the bodies of its closures (and tokens32.Add/Trim/Tokens, Parse, Reset)
+	// are translated by `pegruntime` and what they do is proved (Props/PegRuntimeGen, RunGoGen, RunGoParse).
 	`Init`: `var ( max token32 position, tokenIndex uint32 buffer []rune memoization map[memoKey]memo ) ` +
 		`for _, option := range options { err := option(p) if err != nil { return err } } ` +
-		`p.reset = func() { max = token32{} position, tokenIndex = 0, 0 memoization = make(map[memoKey]memo) p.buffer = []rune(p.Buffer) ` +
-		`if len(p.buffer) == 0 || p.buffer[len(p.buffer)-1] != endSymbol { p.buffer = append(p.buffer, endSymbol) } buffer = p.buffer } ` +
+		`p.reset = <closure> ` +
 		`p.reset() ` +
 		`_rules := p.rules ` +
 		`tree := p.tokens32 ` +
-		`p.parse = func(rule ...int) error { r := 1 if len(rule) > 0 { r = rule[0] } matches := p.rules[r]() p.tokens32 = tree ` +
-		`if matches { p.Trim(tokenIndex) return nil } return &parseError{p, max} } ` +
-		`add := func(rule pegRule, begin uint32) { tree.Add(rule, begin, position, tokenIndex) tokenIndex++ ` +
-		`if begin != position && position > max.end { max = token32{rule, begin, position} } } ` +
-		`memoize := func(rule uint32, begin uint32, tokenIndexStart uint32, matched bool) { if p.disableMemoize { return } key := memoKey{rule, begin} ` +
-		`if !matched { memoization[key] = memo{Matched: false} } else { t := tree.tree[tokenIndexStart:tokenIndex] tokenCopy := make([]token32, len(t)) ` +
-		`copy(tokenCopy, t) memoization[key] = memo{Matched: true, Partial: tokenCopy} } } ` +
-		`memoizedResult := func(m memo) bool { if !m.Matched { return false } tree.tree = append(tree.tree[:tokenIndex], m.Partial...) ` +
-		`tokenIndex += uint32(len(m.Partial)) position = m.Partial[len(m.Partial)-1].end ` +
-		`if tree.tree[tokenIndex-1].begin != position && position > max.end { max = tree.tree[tokenIndex-1] } return true } ` +
-		`matchDot := func() bool { if buffer[position] != endSymbol { position++ return true } return false } ` +
+		`p.parse = <closure> ` +
+		`add := <closure> ` +
+		`memoize := <closure> ` +
+		`memoizedResult := <closure> ` +
+		`matchDot := <closure> ` +
 		`<_rules> ` +
 		`p.rules = _rules ` +
 		`return nil`,
 }
+
+func prIsClosure(e ast.Expr) bool { _, ok := e.(*ast.FuncLit); return ok }
 
 func (d *prDec) checkRuntime(file *ast.File, initFn *ast.FuncDecl, table ast.Stmt) {
 	got := map[string]string{}
@@ -823,6 +813,9 @@ func (d *prDec) checkRuntime(file *ast.File, initFn *ast.FuncDecl, table ast.Stm
 	for _, st := range initFn.Body.List {
 		if st == table {
 			parts = append(parts, `<_rules>`)
+		} else if as, ok := st.(*ast.AssignStmt); ok && len(as.Lhs) == 1 && len(as.Rhs) == 1 && prIsClosure(as.Rhs[0]) {
+			// translated by pegruntime (which also checks which names are bound this way and with which signature)
+			parts = append(parts, prPrint(d.fset, as.Lhs[0])+` `+as.Tok.String()+` <closure>`)
 		} else {
 			parts = append(parts, prPrint(d.fset, st))
 		}
@@ -1025,12 +1018,18 @@ func genPegRules(repo, out string) (err error) {
 	b.WriteString("function looks up and stores its memo entry under its own number (table index − 1) with the pair saved at\n")
 	b.WriteString("entry; `add(rule<Name>, positionK)` uses the position saved at entry and is the last token added before\n")
 	b.WriteString("`memoize(…, true)`; the constants `rule<Name>`, the table `rul3s` and the function order agree; the\n")
-	b.WriteString("`/* N name <- */` comments agree with that; the runtime around the table (endSymbol, tokens32.Add/Trim/Tokens,\n")
-	b.WriteString("Parse, Reset, and in Init: reset, parse, add, memoize, memoizedResult, matchDot) has the pinned text.\n\n")
+	b.WriteString("`/* N name <- */` comments agree with that; of the runtime around the table only endSymbol, the types token32 /\n")
+	b.WriteString("memo / memoKey and the SKELETON of Init (its variables, the option loop, which closures are bound in which order,\n")
+	b.WriteString("`p.reset()`, `_rules := p.rules`, `tree := p.tokens32`, `p.rules = _rules`) still have a pinned text; the bodies of\n")
+	b.WriteString("tokens32.Add/Trim/Tokens, Parse, Reset and of the closures reset, parse, add, memoize, memoizedResult, matchDot\n")
+	b.WriteString("are translated by generator `pegruntime` (a text change there no longer makes THIS generator refuse: it changes\n")
+	b.WriteString("Gen/PegRuntimeGo.lean, and the theorems of Props/PegRuntimeGen, RunGoGen, RunGoParse decide).\n\n")
 	b.WriteString("What the runtime means for `Peg.run`. The LOCAL claims below about tokens32.Add/Trim/Tokens, reset, add, memoize,\n")
 	b.WriteString("memoizedResult and matchDot are no longer only read: generator `pegruntime` translates those bodies statement by\n")
 	b.WriteString("statement (Gen/PegRuntimeGo.lean) and Props/PegRuntimeGen.lean proves them (named in brackets). What remains the\n")
-	b.WriteString("trusted reading (stated, not proved; text pinned here): `parse`/`Parse`/`Reset`/the option loop of Init. The\n")
+	b.WriteString("trusted reading (stated, not proved; text pinned here): the option loop and the skeleton of Init. `parse`/`Parse`/\n")
+	b.WriteString("`Reset` are translated too and Props/RunGoParse.lean proves `RG_Parse_is_recognise`: the translated `Parse()` with\n")
+	b.WriteString("the rule functions run on this runtime returns nil and publishes exactly the tokens of the grammar's recogniser. The\n")
 	b.WriteString("COMPOSITION — that the rule functions running on this runtime compute `Peg.run` — is proved (Peg/RunGo.lean\n")
 	b.WriteString("`runGo`, Props/RunGoGen.lean `RG_*`): with memoisation off, and with the table in use (`RG_memo_full_holds`,\n")
 	b.WriteString("`RG_go_parse_memo`: every stored entry is what a rerun of that rule at that position answers, hence the cache is\n")
